@@ -137,7 +137,9 @@ def build_directory(case, rename_end=False):
         for i, an in enumerate(spec["residues"][0][2]):
             xyz = np.round(np.array(spec["coords"][i]) + shift, 3)
             records.append((resid, spec["residues"][0][0], an, len(records) + 1) + tuple(float(c) for c in xyz))
-    system = os.path.join(inputs, "system.gro")
+    # the input name may contain further dots (temperatures, part numbers, version tags)
+    sysname = ["system.gro", "npt_298.15K.gro", "confout.part0002.gro", "system.v2.final.gro"][case["seed"] % 4]
+    system = os.path.join(inputs, sysname)
     indep.write_gro(system, "generated CG system", records, [10.0, 10.0, 10.0])
 
     def write_itp(path, spec):
@@ -409,7 +411,7 @@ def check_cli(case):
     workdir = os.path.join(D["dir"], "work")
     os.makedirs(workdir)
     if case["outmode"] == "default":
-        out_args, expect_out = [], os.path.join(D["inputs"], "mapped_system.gro")
+        out_args, expect_out = [], os.path.join(D["inputs"], "mapped_" + os.path.basename(D["system"]))
     elif case["outmode"] == "absolute":
         p = os.path.join(D["dir"], "out_abs.gro")
         out_args, expect_out = ["-o", p], p
@@ -418,7 +420,7 @@ def check_cli(case):
         out_args, expect_out = ["-o", "result.gro"], os.path.join(workdir, "result.gro")
     else:
         cwd = D["dir"]
-        argv_ref = os.path.join("inputs", "system.gro")
+        argv_ref = os.path.join("inputs", os.path.basename(D["system"]))
         out_args, expect_out = ["--outfile", os.path.join("work", "res.gro")], os.path.join(workdir, "res.gro")
     sp_mol, sp_auto = case.get("spelling", ["abs", "abs"])
     if cwd is None and (sp_mol in ("rel", "dot") or sp_auto in ("rel", "dot")):
